@@ -20,6 +20,11 @@ class PEError(AnalysisBroken):
     pass
 
 
+class OutOfBounds(PEError):
+    """raised (only when Interp.strict_bounds is set) for a read past the end of a concrete array"""
+    pass
+
+
 class Sym:
     """symbolic expression"""
     __slots__ = ('op', 'args', 'ctype')
@@ -391,6 +396,9 @@ class Interp:
                     return Sym('index', (_hashable(c), k))
                 if 0 <= k < len(c):
                     return c[k]
+                if getattr(self, 'strict_bounds', False):
+                    n_ = node if node is not None else getattr(self, 'cur_node', None)
+                    raise OutOfBounds('read of element %d of a %d-element array at %s' % (k, len(c), astdb.loc_str(n_) if n_ else '?'))
                 return unk('oob[%d]' % k)
             if isinstance(c, str):
                 if is_sym(k):
